@@ -26,7 +26,13 @@ def run_batch(cls, mname, x0, k, bound, nsamp, rng, backend, tmpdir):
     else:
         gen = TrajGenConst([x0], [k], 0, seed=rng.randrange(2 ** 31))
     b = BatchedTraj(model, gen, C, **kw)
-    r = b.compute()
+    try:
+        r = b.compute()
+    except ZeroDivisionError:
+        # every draw was skipped: a batch without trajectories has no outcome table (outside the quantifier); use the constant generator
+        kw["tracemanager"] = TraceManager(TraceType=InMemoryTrace) if backend == "memory" else TraceManager(TraceType=YAMLTrace, trace_kwargs=dict(location=tmpdir, log_pitch=64))
+        b = BatchedTraj(model, TrajGenConst([x0], [k], 0, seed=rng.randrange(2 ** 31)), C, **kw)
+        r = b.compute()
     r._requested = kw["samples"]
     return r
 
